@@ -23,7 +23,8 @@ KINDS = ['set with raising watcher', 'update rejected value', 'trigger with rais
          'batch body raises', 'discard body raises', 'edit_constant body raises', 'update-context body raises',
          'constructor rejected value', 'update unknown key', 'set with raising queued watcher', 'update with raising watcher',
          'trigger unknown name', 'update rejected value before an Event key', 'trigger a,e with raising watcher',
-         'update a,e with raising watcher']
+         'update a,e with raising watcher', 'trigger of a linked parameter with raising watcher',
+         'source update rejected by the linked parameter', 'source update with raising watcher on the linked parameter']
 
 
 class Boom(Exception):
@@ -35,11 +36,17 @@ class P(param.Parameterized):
     b = param.Integer(default=1, bounds=(0, 10))
     e = param.Event()
     c = param.Integer(default=3, constant=True)
+    l = param.Integer(default=0, bounds=(0, 10), allow_refs=True)
+
+
+class Src(param.Parameterized):
+    v = param.Integer(default=0)
 
 
 def _build(vals, pr_r, qd_r):
     """object with the given values and the standard watcher set; returns (obj, trace, arm)"""
-    p = P()
+    src = Src(v=vals.get('l', 0))
+    p = P(l=src.param.v)          # l follows src.v
     with param.parameterized.discard_events(p):
         p.a = vals['a']
         p.b = vals['b']
@@ -47,7 +54,7 @@ def _build(vals, pr_r, qd_r):
             with edit_constant(p):
                 p.c = vals['c']
     trace = []
-    arm = {'on': False}
+    arm = {'on': False, 'src': src}
 
     def raiser(*events):
         trace.append(('R', tuple((e.name, e.old, e.new, e.type) for e in events), (p.a, p.b, p.e)))
@@ -60,8 +67,8 @@ def _build(vals, pr_r, qd_r):
 
     def obs2(*events):
         trace.append(('S', tuple((e.name, e.old, e.new, e.type) for e in events), (p.a, p.b, p.e)))
-    p.param.watch(raiser, ['a'], onlychanged=False, precedence=pr_r, queued=qd_r)
-    p.param.watch(obs, ['a', 'b', 'e'], onlychanged=True, precedence=1)
+    p.param.watch(raiser, ['a', 'l'], onlychanged=False, precedence=pr_r, queued=qd_r)
+    p.param.watch(obs, ['a', 'b', 'e', 'l'], onlychanged=True, precedence=1)
     p.param.watch(obs2, ['a'], onlychanged=False, precedence=1)
     return p, trace, arm
 
@@ -123,6 +130,14 @@ def _fault(p, arm, kind, v, pos):
         elif kind == 15:
             arm['on'] = True
             p.param.update(a=v, e=True)
+        elif kind == 16:
+            arm['on'] = True
+            p.param.trigger('l')
+        elif kind == 17:
+            arm['src'].v = 99             # invalid for l: the source assignment raises while propagating
+        elif kind == 18:
+            arm['on'] = True
+            arm['src'].v = 4
         return False, None
     except (Boom, ValueError, TypeError, KeyError) as ex:
         return True, type(ex).__name__
@@ -130,7 +145,7 @@ def _fault(p, arm, kind, v, pos):
         arm['on'] = False
 
 
-def _probe(p, trace, x):
+def _probe(p, trace, x, src):
     """fixed probe program; everything observable goes to the trace"""
     out = []
     p.a = p.a                       # same value: changes-only watcher silent, plain watchers 'set'
@@ -149,6 +164,11 @@ def _probe(p, trace, x):
     p.param.update(a=x + 2, b=6)
     p.param.trigger('b')
     out.append(('vals', p.a, p.b, p.e, p.c))
+    src.v = 6                       # the link is still followed ...
+    out.append(('linked', p.l))
+    p.l = 3                         # ... until a plain value ends it
+    src.v = 8
+    out.append(('unlinked', p.l))
     return out
 
 
@@ -169,7 +189,7 @@ def prog(k1: int, k2: int, in_batch: bool, pr_r: int, v1: int, v2: int, pos1: bo
     n_before = len(trace)
     raised, exc = _fault(p, arm, k1, v1, pos1)
     cover('C05.kind.%s' % KINDS[k1])
-    if k1 not in (0, 2, 3, 10, 11, 14, 15) or not in_batch:
+    if k1 not in (0, 2, 3, 10, 11, 14, 15, 16, 18) or not in_batch:
         # inside a surrounding batch the watcher-raising kinds only fail at the flush
         check('C05.fault_raised', raised, dict(info, exc=exc))
     if k2 >= 0:
@@ -196,10 +216,10 @@ def prog(k1: int, k2: int, in_batch: bool, pr_r: int, v1: int, v2: int, pos1: bo
     # --- differential probe against a freshly built twin
     with untraced():
         pass
-    t, ttrace, tarm = _build({'a': p.a, 'b': p.b, 'c': p.c}, pr_r, qd_r)
+    t, ttrace, tarm = _build({'a': p.a, 'b': p.b, 'c': p.c, 'l': p.l}, pr_r, qd_r)
     n0 = len(trace)
-    out_f = _probe(p, trace, x)
-    out_t = _probe(t, ttrace, x)
+    out_f = _probe(p, trace, x, arm['src'])
+    out_t = _probe(t, ttrace, x, tarm['src'])
     rel_f = [(o[0], o[1] - n0) if o[0] == 'in_batch' else o for o in out_f]
     rel_t = list(out_t)
     check('C05.twin_equal', _eq(trace[n0:], ttrace), dict(info, faulted=repr(trace[n0:])[:600], twin=repr(ttrace)[:600]))
@@ -228,7 +248,7 @@ def shards(tier):
     for k1 in range(len(KINDS)):
         for ib in (False, True):
             if q:       # no second fault, or one of three kinds (fixed value, fixed key order)
-                for k2 in (-1, 1, 2, 4):
+                for k2 in ((-1, 1, 2, 4) if k1 < 16 else (-1, 2)):
                     out.append(dict(name='k%d_%d_b%d' % (k1, k2, ib), module='harness.c05', fn='prog',
                                     consts=dict(k1=k1, k2=k2, in_batch=ib, v2=1, pos2=True), budget_s=60))
             else:
